@@ -462,8 +462,10 @@ def d6(chk, prog, names=None):
     from ..absval import Closure, Raised
     from ..estyping import const_model, Arr
     vectors = [[0, 0, 0, 1], [0, 0, 0, 0, 1, 4], [0, 1, 2, 3, 10], [Fr(1, 2), 1, Fr(3, 2), 40], [-1, -1, -1, 0, -1, Fr(-1, 2)], [2, 2, 2], [1, 2], [0, 0, 1, 1, 1, 5], [-3, 0, 0, 0, 3],
-               [0, 1, 3, 7], [5, 1, 4, 1, 3, 9, 2, 6, 5, 3, 5, 8]]
-    weights = {4: [1, 1, 2, 1], 6: [1, 3, 1, 1, 2, 1], 5: [1, 1, 2, 1, 1], 3: [2, 1, 1], 2: [1, 3], 12: [1, 2, 1, 1, 1, 3, 1, 1, 2, 1, 1, 1]}
+               [0, 1, 3, 7], [5, 1, 4, 1, 3, 9, 2, 6, 5, 3, 5, 8],
+               # a tied majority with near neighbours: MAD 0, the other values a few thousandths away (between the absolute floor 1e-3 and c times it)
+               [0, 0, 0, 0, 0, 0, Fr(1, 200), Fr(1, 200), Fr(1, 200)]]
+    weights = {4: [1, 1, 2, 1], 6: [1, 3, 1, 1, 2, 1], 5: [1, 1, 2, 1, 1], 3: [2, 1, 1], 2: [1, 3], 12: [1, 2, 1, 1, 1, 3, 1, 1, 2, 1, 1, 1], 9: [1, 1, 1, 2, 1, 1, 1, 1, 1]}
 
     def med(v):
         s_ = sorted(v)
@@ -550,7 +552,7 @@ def d6(chk, prog, names=None):
         if names is not None and name not in names:
             continue
         fi = prog.fn(f"{DESC}.{name}")
-        tb = Table(chk, "est-const", f"{name} on {len(vectors)} literal vectors (majority tied, outlier, symmetric, constant, two values, 12 values) == {what}", fi.loc(), fi.qn + "::formula")
+        tb = Table(chk, "est-const", f"{name} on {len(vectors)} literal vectors (majority tied, outlier, symmetric, constant, two values, 12 values, tied majority with near neighbours) == {what}", fi.loc(), fi.qn + "::formula")
         for v in vectors:
             if name == "gapper_scale" and len(set(v)) == 1:
                 continue
